@@ -228,6 +228,14 @@ func (h *harness) record(c *engine.Case, v verdict, source string) {
 	h.run.Case(string(b), nontrivial(c, v.Real))
 	if v.Real != nil {
 		h.run.Count(fmt.Sprintf("%s:promises=%d", source, min(v.Real.Promises, 8)))
+		switch {
+		case c.Syntax == 0:
+			h.run.Count("model line: rund, plain document")
+		case c.ConcreteLine():
+			h.run.Count(fmt.Sprintf("model line: runc (collectFields instantiated), variable-driven directives=%v", c.Syntax&4 != 0))
+		default:
+			h.run.Count(fmt.Sprintf("model line: rund (flags), variable-driven directives=%v", c.Syntax&4 != 0))
+		}
 		h.run.Count(fmt.Sprintf("rounds=%d", min(v.Real.Rounds, 8)))
 		h.run.Count(fmt.Sprintf("errors=%d", min(len(v.Real.Errors), 5)))
 		if v.Real.Data == "null" {
@@ -541,6 +549,34 @@ func (h *harness) wide() {
 	h.batch(cs, "wide")
 }
 
+// subscriptionEvents: one source event of a subscription is executed like a query
+// (executeSubscriptionEvent → executeSelections with forceSerial = false): single-root subscription
+// documents through graphql.Execute with the event as root value, against the query model.
+func (h *harness) subscriptionEvents() {
+	run := h.run
+	n := run.Scale(3000, 20000)
+	var pending []*engine.Case
+	for i := 0; i < n; i++ {
+		r := run.Rand.Fork()
+		o := engine.GenOpts{MaxDepth: r.Range(1, 3), MaxFields: r.Range(2, 4), MaxItems: 3}
+		wo := engine.WorldOpts{PAsync: r.Range(3, 7), PFail: r.Range(0, 4), PNull: r.Range(0, 2), PBad: r.Range(0, 2), MaxItems: 3, ValueKindErrors: true}
+		inner := engine.GenShape(r, o, 1, 0)
+		var t *engine.TShape = inner
+		if r.Chance(1, 4) {
+			t = &engine.TShape{Kind: "list", Elem: inner, ElemNN: r.Bool()}
+		}
+		shape := &engine.TShape{Kind: "object", Fields: []*engine.FShape{{Name: "ev", NN: r.Chance(1, 4), T: t}}}
+		c := &engine.Case{Subscription: true, Shape: shape, World: engine.GenWorld(r, shape, wo)}
+		for _, f := range c.Invocations() {
+			f.Mode = hx.Pick(r, []string{"sync", "promise", "promise", "pre"})
+		}
+		c.Schedule = engine.GenSchedule(r, r.Range(0, 10))
+		pending = append(pending, c)
+		run.Count("subscription event")
+	}
+	h.batch(pending, "subscription-event")
+}
+
 func (h *harness) random() {
 	run := h.run
 	n := run.Scale(40000, 250000)
@@ -621,6 +657,8 @@ func main() {
 		}
 		if rp.Level == "args" {
 			h.replayArgs(rp.Case)
+		} else if rp.Level == "abs" {
+			h.replayAbs(rp.Case)
 		} else if rp.Level == "combinator" {
 			var cc CombCase
 			if err := json.Unmarshal(rp.Case, &cc); err != nil {
@@ -681,8 +719,11 @@ func main() {
 	}
 
 	h.combinators()
+	h.inventory()
 	h.exhaustive()
 	h.argsFamily()
+	h.absFamily()
+	h.subscriptionEvents()
 	h.wide()
 	h.random()
 	run.Finish(h.model)
